@@ -500,7 +500,7 @@ fn time_once(s: &str) -> f64 {
 /// Not part of the exhaustive claim: a measurement of time growth, alarm only for clearly
 /// super-linear (>= quadratic-like) growth: T(64 KiB) > 8 * 64 * T(1 KiB) and T(64 KiB) > 0.2 s.
 pub fn growth_measurement(sink: &Sink) -> Value {
-    let pats = ["1.2.3 ", ">=1.2.3 ", "1.2.3 || ", "foo ", " ", "||", "1 - 2 || ", "^1.2.3-a.b.c ", "x", ">", "1.2.3-a.", "~>"];
+    let pats = ["1.2.3 ", ">=1.2.3 ", "1.2.3 || ", "foo ", " ", "||", "1 - 2 || ", "^1.2.3-a.b.c ", "x", ">", "1.2.3-a.", "~>", "\t", " - ", "* ", "|| ", "v", "1.2.3+b.", "<=1.x ", "0"];
     let mut rows = vec![];
     for p in pats {
         let mk = |total: usize| -> String {
